@@ -28,7 +28,7 @@ def unset_lww(d):
 def run(ctx):
     ctx.trusted += ["protobuf marshal/unmarshal and the CBOR/proto value serializers (contract: injective on supported values, rejects nil) — exercised on every run",
                     "go/inpkg/crdt slot machine + canonical dump (harness)"]
-    ctx.assumptions += ["element, key and register values are built-in primitives or proto messages (the serializer's domain); the nil interface is not — a never-set LWWRegister (value nil) is therefore not encodable, which the repo's own codec tests rely on",
+    ctx.assumptions += ["element, key and register values are built-in primitives, CBOR-registered structs (register values) or proto messages (the serializer's domain); the nil interface is not — a never-set LWWRegister (value nil) is therefore not encodable, which the repo's own codec tests rely on",
                         "the value serializer does not map two different supported values to the same bytes"]
     rng = ctx.rng
     progs = []
@@ -38,13 +38,14 @@ def run(ctx):
         {"o": "new", "d": 1, "t": "pn"}, {"o": "dec", "d": 1, "s": 1, "n": 4, "v": 2 ** 63}, {"o": "inc", "d": 1, "s": 1, "n": 7, "v": 5},
         {"o": "new", "d": 2, "t": "f"}, {"o": "enable", "d": 2, "s": 2},
         {"o": "new", "d": 3, "t": "l"}, {"o": "lset", "d": 3, "s": 3, "n": 5, "e": 8, "ts": -2 ** 63}, {"o": "lset", "d": 3, "s": 3, "n": 6, "e": 3, "ts": 2 ** 63 - 1},
-        {"o": "lset", "d": 3, "s": 3, "n": 6, "e": 0, "ts": 7},
-        {"o": "new", "d": 4, "t": "mv"}, {"o": "mvset", "d": 4, "s": 4, "n": 1, "e": 4}, {"o": "mvset", "d": 5, "s": 4, "n": 4, "e": 5}, {"o": "merge", "d": 4, "a": 4, "b": 5},
+        {"o": "lset", "d": 3, "s": 3, "n": 6, "e": 0, "ts": 7}, {"o": "lset", "d": 11, "s": 3, "n": 6, "e": 12, "ts": 9},
+        {"o": "new", "d": 4, "t": "mv"}, {"o": "mvset", "d": 4, "s": 4, "n": 1, "e": 4}, {"o": "mvset", "d": 5, "s": 4, "n": 4, "e": 13}, {"o": "merge", "d": 4, "a": 4, "b": 5},
         {"o": "new", "d": 6, "t": "s"}, {"o": "add", "d": 6, "s": 6, "n": 1, "e": 4}, {"o": "add", "d": 6, "s": 6, "n": 1, "e": 5}, {"o": "add", "d": 6, "s": 6, "n": 4, "e": 6},
         {"o": "add", "d": 6, "s": 6, "n": 4, "e": 3}, {"o": "rem", "d": 6, "s": 6, "e": 5}, {"o": "add", "d": 6, "s": 6, "n": 1, "e": 0},
         {"o": "new", "d": 7, "t": "m"}, {"o": "mset", "d": 7, "s": 7, "n": 1, "e": 1, "a": 0}, {"o": "mset", "d": 7, "s": 7, "n": 4, "e": 7, "a": 0},
         {"o": "new", "d": 8, "t": "mm"}, {"o": "mset", "d": 8, "s": 8, "n": 1, "e": 2, "a": 7}, {"o": "mrem", "d": 7, "s": 7, "e": 1}, {"o": "mset", "d": 8, "s": 8, "n": 4, "e": 11, "a": 7},
-        {"o": "new", "d": 9, "t": "m"}, {"o": "new", "d": 10, "t": "l"}, {"o": "mset", "d": 9, "s": 9, "n": 1, "e": 1, "a": 10}]})
+        {"o": "new", "d": 9, "t": "m"}, {"o": "new", "d": 10, "t": "l"}, {"o": "mset", "d": 9, "s": 9, "n": 1, "e": 1, "a": 10},
+        {"o": "new", "d": 12, "t": "m"}, {"o": "mset", "d": 12, "s": 12, "n": 1, "e": 2, "a": 11}, {"o": "mset", "d": 12, "s": 12, "n": 4, "e": 4, "a": 4}]})
     n = 1500 if ctx.thorough else 150
     types = ["g", "pn", "f", "l", "mv", "s", "m", "mm", "m", "s", "mm"]
     for i in range(n):
